@@ -141,6 +141,10 @@ func (rt *runtime) tryCatchEvaluate(inner func() Value) (tryValue Value, isExcep
 			case ottoError:
 				isException = true
 				tryValue = objectValue(rt.newErrorObjectError(caught))
+			case *Error:
+				// The error of a failed Call, panicked with by a host function to pass it on.
+				isException = true
+				tryValue = objectValue(rt.newErrorObjectError(caught.ottoError))
 			case Value:
 				isException = true
 				tryValue = caught
